@@ -9,6 +9,7 @@ CONSTANTS
   RNG = "global"
   AddrBytes = "fill"
   NetBase = "masked"
+  DerivedMode = "once"
 VIEW view
 INVARIANTS TypeOK Contained WellFormed RandPortFromSubnet Pure NoSpuriousError
 CHECK_DEADLOCK FALSE
